@@ -19,7 +19,7 @@ PROPS = ["props/C07.v"]
 EXTRACTS = ["Solver", "C14"]
 THEOREMS = ["C07_listing_order_free_partial", "C07_listing_order_tie_refuted", "C07_spelling_irrelevant",
             "C07_sort_is_a_function_of_the_set_partial", "C07_index_page_listing_order_free_partial",
-            "C07_index_page_entry_independent_partial", "C07_whole_compile_listing_order_free", "C07_compile_depends_on_answers_only"]
+            "C07_index_page_entry_independent_partial", "C07_whole_compile_listing_order_free", "C07_compile_depends_on_answers_only", "C07_names_differing_in_separators_or_case_are_one_project"]
 MODES = ["calm", "conflict", "extras", "dense", "cascade"]
 RULE = ("(a) whole-compile correspondence of the real solver with the model, which is a function of the logical input; "
         "(b) metamorphic runs of the real code against its own base run: candidate listings shuffled, input lines and "
@@ -54,9 +54,15 @@ def translate(ctx: Ctx) -> Dict[str, str]:
 
 
 def respell(rng, text: str) -> str:
-    """respell the project name of one requirement line (single-letter names: case only)"""
-    head = text[0]
-    return (head.upper() if head.islower() else head.lower()) + text[1:]
+    """respell the project name of one requirement line: another spelling of the same project (case, '-', '_', '.')"""
+    import re
+    m = re.match(r"[A-Za-z0-9._-]+", text)
+    if not m:
+        return text
+    name = m.group(0)
+    key = name.lower().replace("-", "_").replace(".", "_")
+    others = [x for x in solverlib.SPELL.get(key, []) + [name.upper(), name.lower()] if x != name]
+    return (rng.choice(others) if others else name) + text[len(name):]
 
 
 def variants(rng, case: Dict[str, Any]) -> List[Any]:
@@ -263,7 +269,8 @@ def make_tree(rng, base, depth: int, counter: List[int]) -> None:
         if rng.random() < 0.55:
             counter[0] += 1
             with open(os.path.join(d, "setup.cfg"), "w") as fh:
-                fh.write("[metadata]\nname = proj{}\nversion = {}.0\n".format(counter[0] % 7, 1 + counter[0] % 3))
+                # few project names and versions: several checkouts of one project and version are common
+                fh.write("[metadata]\nname = proj{}\nversion = {}.0\n".format(counter[0] % 3, 1 + (counter[0] // 3) % 2))
         if depth > 0 and rng.random() < 0.6:
             make_tree(rng, d, depth - 1, counter)
 
@@ -298,7 +305,16 @@ def discovery_order_metamorphic(ctx: Ctx) -> List[Dict[str, Any]]:
             S.os.walk = walk
             try:
                 repo = S.SourceRepository(root)
-                got = sorted((c.name, str(c.version), os.path.relpath(c.filename, root)) for c in repo.get_candidates(None))
+                import req_compile.repos.repository as R0
+                cands = list(repo.get_candidates(None))
+                got = sorted((c.name, str(c.version), os.path.relpath(c.filename, root)) for c in cands)
+                # ... and which checkout of each project the repository prefers (several checkouts of one project and
+                # version, possibly in same-named leaf directories) must not depend on the discovery order either
+                best = {}
+                for nm in sorted({c.name for c in cands}):
+                    first = R0.sort_candidates([c for c in cands if c.name == nm])[0]
+                    best[nm] = os.path.relpath(first.filename, root)
+                got.append(("preferred", json.dumps(best, sort_keys=True), ""))
             except BaseException as ex:  # noqa: BLE001
                 got = ["EXC", type(ex).__name__]
             finally:
